@@ -386,7 +386,7 @@ def scenarios(ctx):
     for order, kind, pausespec in shapes:
         for cls in ("trivial", "overriding", "dlist"):
             for pattern in ("all", "every3", "rand"):
-                out.append(("chain", order, kind, big if pattern == "all" else small, pausespec, cls + "-" + pattern))
+                out.append(("chain", order, kind, (big // 2 if q else big) if pattern == "all" else small, pausespec, cls + "-" + pattern))
     # late-added callbacks: every link gets one more callback after the previous link fired, for plain
     # links and for every link kind
     for order, kind, pausespec in shapes:
